@@ -403,9 +403,25 @@ func (r *relay) header(
 	streamEnded bool,
 	priority http2.PriorityParam,
 ) error {
+	// The block is HPACK-encoded only when the frame is written: frames of different streams
+	// leave their queues in an order that is not known yet, and the receiver's dynamic table
+	// follows the order on the wire.
+	r.enqueueFrame(&queuedHeaderFrame{
+		streamID:  id,
+		endStream: streamEnded,
+		priority:  priority,
+		headers:   headers,
+		relay:     r,
+	})
+	return nil
+}
+
+// headerChunks encodes headers and splits the block into HEADERS / CONTINUATION fragments. It is
+// called by the writer goroutine at the moment the frame is sent.
+func (r *relay) headerChunks(headers []hpack.HeaderField, priority http2.PriorityParam) ([][]byte, error) {
 	encoded, err := r.encodeFull(headers)
 	if err != nil {
-		return fmt.Errorf("encoding headers %v: %w", headers, err)
+		return nil, fmt.Errorf("encoding headers %v: %w", headers, err)
 	}
 
 	maxPayloadLength := atomic.LoadUint32(&r.maxFrameSize)
@@ -416,15 +432,7 @@ func (r *relay) header(
 	if !priority.IsZero() {
 		maxHeaderFragmentLength -= headersPriorityMetadataLength
 	}
-	chunks := splitIntoChunks(int(maxHeaderFragmentLength), int(maxPayloadLength), encoded)
-
-	r.enqueueFrame(&queuedHeaderFrame{
-		streamID:  id,
-		endStream: streamEnded,
-		priority:  priority,
-		chunks:    chunks,
-	})
-	return nil
+	return splitIntoChunks(int(maxHeaderFragmentLength), int(maxPayloadLength), encoded), nil
 }
 
 func (r *relay) priority(id uint32, priority http2.PriorityParam) {
@@ -442,21 +450,25 @@ func (r *relay) rstStream(id uint32, errCode http2.ErrCode) {
 }
 
 func (r *relay) pushPromise(id, promiseID uint32, headers []hpack.HeaderField) error {
+	r.enqueueFrame(&queuedPushPromiseFrame{
+		streamID:  id,
+		promiseID: promiseID,
+		headers:   headers,
+		relay:     r,
+	})
+	return nil
+}
+
+// pushPromiseChunks is the PUSH_PROMISE counterpart of headerChunks.
+func (r *relay) pushPromiseChunks(headers []hpack.HeaderField) ([][]byte, error) {
 	encoded, err := r.encodeFull(headers)
 	if err != nil {
-		return fmt.Errorf("encoding push promise headers %v: %w", headers, err)
+		return nil, fmt.Errorf("encoding push promise headers %v: %w", headers, err)
 	}
 
 	maxPayloadLength := atomic.LoadUint32(&r.maxFrameSize)
 	maxHeaderFragmentLength := maxPayloadLength - pushPromiseMetadataLength
-	chunks := splitIntoChunks(int(maxHeaderFragmentLength), int(maxPayloadLength), encoded)
-
-	r.enqueueFrame(&queuedPushPromiseFrame{
-		streamID:  id,
-		promiseID: promiseID,
-		chunks:    chunks,
-	})
-	return nil
+	return splitIntoChunks(int(maxHeaderFragmentLength), int(maxPayloadLength), encoded), nil
 }
 
 func (r *relay) enqueueFrame(f queuedFrame) {
